@@ -139,6 +139,7 @@ fn add_stats(a: &mut RunStats, b: &RunStats) {
     a.audited_writes += b.audited_writes;
     a.clock_back += b.clock_back;
     a.alias_hash_form += b.alias_hash_form;
+    a.model_diverged += b.model_diverged;
     a.alias_tail_form += b.alias_tail_form;
     a.hard_faults += b.hard_faults;
     a.clock_span_s += b.clock_span_s;
@@ -154,7 +155,21 @@ fn add_stats(a: &mut RunStats, b: &RunStats) {
 pub fn run_batches(batches: Vec<Batch>, agg: &mut Agg) {
     for b in batches {
         let t0 = Instant::now();
-        let outs = par_map(b.runs, &*b.f);
+        // a panic of the harness itself must surface as a harness error (exit 2), never as an abort or a VIOLATION
+        let bf = &*b.f;
+        let guarded_f = move |i: u64| -> RunOutcome {
+            match std::panic::catch_unwind(std::panic::AssertUnwindSafe(|| bf(i))) {
+                Ok(o) => o,
+                Err(p) => {
+                    let msg = p.downcast_ref::<String>().cloned().or_else(|| p.downcast_ref::<&str>().map(|s| s.to_string())).unwrap_or_else(|| "<non-string panic>".into());
+                    let mut o = RunOutcome::empty();
+                    let v = Violation { property: "HARNESS".into(), class: "harness-panic".into(), detail: format!("run {} of this batch: {}", i, msg), step: 0 };
+                    o.violation = Some((v.clone(), Replay { property: "HARNESS".into(), kind: "harness".into(), seed: i, cfg: crate::c06::dummy_cfg(), steps: vec![], violation: Some(v) }));
+                    o
+                }
+            }
+        };
+        let outs = par_map(b.runs, &guarded_f);
         let mut nviol = 0;
         for (i, o) in outs.into_iter().enumerate() {
             agg.runs += 1;
@@ -257,7 +272,7 @@ pub fn stats_json(s: &RunStats) -> Value {
             "not_enough_space_reported": s.nospace_seen, "fixed_root_full": s.root_full_seen, "directory_grew": s.dir_grew,
             "lfn_run_straddles_cluster": s.lfn_straddle, "write_crossed_cluster": s.write_cross_cluster,
             "steps_with_several_handles_alive": s.multi_handle_steps, "failed_calls_checked_for_atomicity": s.fail_atomic_checked,
-            "device_writes_audited": s.audited_writes, "clock_moved_backwards": s.clock_back, "aliases_in_hash_form(max per run, summed)": s.alias_hash_form, "aliases_in_numeric_tail_form(max per run, summed)": s.alias_tail_form
+            "device_writes_audited": s.audited_writes, "clock_moved_backwards": s.clock_back, "runs_stopped_because_library_and_model_diverged(outcome oracle not enabled)": s.model_diverged, "aliases_in_hash_form(max per run, summed)": s.alias_hash_form, "aliases_in_numeric_tail_form(max per run, summed)": s.alias_tail_form
         },
         "faults_fired": {
             "hard_error": s.fired.hard, "eintr": s.fired.eintr, "short_read": s.fired.short_read, "short_write": s.fired.short_write,
